@@ -255,13 +255,22 @@ def _is_ok(v):
     return isinstance(v, EnumV) and v.variant in (0, "Ok")
 
 
-def _confirm(model, native):
+QUERY_SCENARIOS = ("join", "join_names", "select_names")
+
+
+def _confirm_query(model, native):
+    """Native replay for the query-tree laws (C12): only the join / select scenarios count."""
+    return _confirm(model, native, only=QUERY_SCENARIOS)
+
+
+def _confirm(model, native, only=None):
     """Native replay: the public-API protocol scenarios (kani/src/native/protocol.rs)."""
     out = native("native::protocol::replay_protocol", {})
     if not out.get("_ran"):
         return None, "native protocol scenarios did not run"
+    out = {k: v for k, v in out.items() if k.startswith("_") or ((k in only) if only else (k not in QUERY_SCENARIOS))}
     failed = {k: v for k, v in out.items() if isinstance(v, str) and v.startswith("FAILED")}
-    if out.get("_panicked"):
+    if out.get("_panicked") and not only:
         return True, "a native protocol scenario panicked: %s" % out.get("_panic_msg")
     if failed:
         k = sorted(failed)[0]
